@@ -340,7 +340,7 @@ def _feature(cons, name: str):
 
 
 # ---------------------------------------------------------------------------------------------------------------
-def _check_decode(res: Result, proj: Project):
+def _check_decode(res: Result, proj: Project, rule: str = "X4", only_pulp: bool = False):
     bad = {"pulp": None, "cplex": None, "cplex-pool": None}
     count = 0
     for n, raws in ((3, RAW3), (4, RAW4)):
@@ -378,8 +378,30 @@ def _check_decode(res: Result, proj: Project):
             want2 = [want, _ranking_of(list(reversed(order)), elems)]
             if got != want2:
                 bad["cplex-pool"] = bad["cplex-pool"] or (order, got, want2)
+    # a universe with two-digit ids: whatever order the solver library lists its variables in (PuLP sorts them by name,
+    # x_10_2 before x_2_0), the answer is decoded through the variables' own names
+    n = 12
+    elems = [f"e{i:02d}" for i in range(n)]
+    raws = [[{e} for e in elems]]
+    for order in ([11, 10, 9, 8, 7, 6, 5, 4, 3, 2, 1, 0], [3, 0, 0, 5, 1, 2, 4, 4, 6, 2, 7, 3]):
+        count += 1
+        a = weak_order_assignment(order)
+        want = _ranking_of(order, elems)
+        pw = PulpWorld(proj)
+        pw.rt.max_steps = 2000000
+        pw.cube = cost_cube(n)
+        pw.sccs = [list(range(n))]
+        pw.assignment_for = lambda names, a=a: a
+        ds = pw.dataset(raws)
+        alg = pw.rt.new(proj.cls(ALG + ".exact.exactalgorithmpulp", "ExactAlgorithmPulp"), [], {})
+        st, c = _safe("pulp decode (12 elements)", lambda: pw.run_compute(alg, ds, pw.scheme(), True))
+        got = [_raw(pw, r) for r in c.attrs["_consensus_rankings"]] if st == "ok" else c
+        if got != [want]:
+            bad["pulp"] = bad["pulp"] or (order, got, want)
     for k, v in bad.items():
-        res.check(v is None, "X4", f"{k}:decode", "corankco/algorithms/exact",
+        if only_pulp and k != "pulp":
+            continue
+        res.check(v is None, rule, f"{k}:decode", "corankco/algorithms/exact",
                   ok_detail=f"{count} solver answers decoded to the ranking they encode (ids c=0, a=1, b=2[, d=3])",
                   bad_detail=f"answer encoding bucket ids {v[0]}: decoded {v[1]!r}, expected {v[2]!r}" if v else "")
 
